@@ -43,6 +43,8 @@ class CloneCall:
     pattern: str  # "clone-in-loop", "clone-chain", "unnecessary-clone"
     is_in_test: bool
     context: str  # Surrounding code snippet
+    # Every pattern the call matches, in priority order (pattern is the first of them)
+    patterns: tuple[str, ...] = ()
 
 
 class RustCloneAnalyzer(RustBaseAnalyzer):
@@ -79,15 +81,16 @@ class RustCloneAnalyzer(RustBaseAnalyzer):
         if node.type == "call_expression":
             method_name = self._get_method_name(node)
             if method_name == "clone":
-                pattern = self._classify_clone(node, code)
-                if pattern is not None:
+                patterns = self._matching_patterns(node)
+                if patterns:
                     calls.append(
                         CloneCall(
                             line=node.start_point[0] + 1,
                             column=node.start_point[1],
-                            pattern=pattern,
+                            pattern=patterns[0],
                             is_in_test=self.is_inside_test(node),
                             context=get_line_context(code, node.start_point[0]),
+                            patterns=patterns,
                         )
                     )
 
@@ -136,13 +139,17 @@ class RustCloneAnalyzer(RustBaseAnalyzer):
             Pattern string or None if not abusive
         """
         _ = code
-        if self._is_chained_clone(node):
-            return "clone-chain"
-        if self._is_inside_loop(node):
-            return "clone-in-loop"
-        if self._is_unnecessary_clone(node):
-            return "unnecessary-clone"
-        return None
+        patterns = self._matching_patterns(node)
+        return patterns[0] if patterns else None
+
+    def _matching_patterns(self, node: Node) -> tuple[str, ...]:
+        """List every abuse pattern a clone call matches, in priority order (chain, loop, unnecessary)."""
+        checks = (
+            ("clone-chain", self._is_chained_clone),
+            ("clone-in-loop", self._is_inside_loop),
+            ("unnecessary-clone", self._is_unnecessary_clone),
+        )
+        return tuple(name for name, matches in checks if matches(node))
 
     def _is_inside_loop(self, node: Node) -> bool:
         """Check if node is inside a loop body.
